@@ -18,18 +18,26 @@ for sid in ids:
     det = {}
     own = json.load(open(os.path.join(d, 'meta.json')))['breaks_property']
     try:
-        for p in props:
+        def one(p):
             env = dict(os.environ)
             if p != own:
                 env['VERIF_STATIC_ONLY'] = '1'      # witnesses are rebuilt only for the seeded property itself
             out = subprocess.run([os.path.join(VERIF, 'check'), p, '--no-evidence'], capture_output=True, text=True, cwd=VERIF, env=env)
-            viol = re.findall(r'^([A-Z][A-Z0-9\-()]*(?:\([^)]*\))?): (.*)$', out.stdout, re.M)
             lines = [l for l in out.stdout.splitlines() if l.startswith('VIOLATION')]
             rules = sorted({l.split(':')[0] for l in out.stdout.splitlines() if re.match(r'^[A-Z][A-Za-z0-9_\-()]+: ', l) and not l.startswith(('VIOLATION', 'KNOWN-FINDING', 'SELFTEST'))})
             if out.returncode == 1 and lines:
-                det[p] = dict(exit=1, violations=len(lines), rules=rules)
-            elif out.returncode not in (0, 1):
-                det[p] = dict(exit=out.returncode, note=out.stdout[-300:])
+                return p, dict(exit=1, violations=len(lines), rules=rules)
+            if out.returncode not in (0, 1):
+                return p, dict(exit=out.returncode, note=out.stdout[-300:])
+            return p, None
+        # the first check extracts the facts of the patched tree (under the work-dir lock); the others then run side by side
+        first = one(props[0])
+        from concurrent.futures import ThreadPoolExecutor
+        with ThreadPoolExecutor(6) as ex:
+            rest = list(ex.map(one, props[1:]))
+        for p, r in [first] + rest:
+            if r is not None:
+                det[p] = r
     finally:
         subprocess.run(['git', '-C', '/repo', 'checkout', '--', '.'])
     meta = json.load(open(os.path.join(d, 'meta.json')))
